@@ -112,7 +112,29 @@ fn edits_for(doc: &Document, l: &Lint) -> Vec<Edit> {
     v
 }
 
-pub fn documents(tier: Tier) -> Vec<(String, bool)> {
+pub fn documents(tier: Tier) -> Vec<(String, bool, bool)> {
+    let mut v = documents_base(tier).into_iter().map(|(t, md)| (t, md, false)).collect::<Vec<_>>();
+    // the same misspelling in two neighbourhoods that differ only in how often a neighbouring
+    // token repeats, what kind it is, or how wide a blank is — every pair of (left, right)
+    // neighbourhoods; the second occurrence ends the document, so its window holds nothing else
+    let lefts = ["", "(", "((", "\"", "a ", "a  "];
+    let rights = ["", "!", "!!", ".", "..", "?", "??", ")", "))", " a", ",", ",,"];
+    let _ = tier;
+    for l1 in lefts {
+        for r1 in rights {
+            for l2 in lefts {
+                for r2 in rights {
+                    if (l1, r1) != (l2, r2) {
+                        v.push((format!("Well {l1}mistke{r1} Nobody saw it.\n\nWhat {l2}mistke{r2}"), false, true));
+                    }
+                }
+            }
+        }
+    }
+    v
+}
+
+fn documents_base(tier: Tier) -> Vec<(String, bool)> {
     let h = crate::harvest::harvest();
     let mut v: Vec<(String, bool)> = vec![];
     for t in [
@@ -169,7 +191,7 @@ impl Ctx {
     }
 }
 
-fn check_doc(cx: &mut Ctx, text: &str, md: bool, tier: Tier, viols: &mut Vec<Violation>) -> (u64, u64, u64) {
+fn check_doc(cx: &mut Ctx, text: &str, md: bool, light: bool, tier: Tier, viols: &mut Vec<Violation>) -> (u64, u64, u64) {
     let mut transitions = 0u64;
     let mut traces = 0u64;
     let mut nontrivial = 0u64;
@@ -225,7 +247,7 @@ fn check_doc(cx: &mut Ctx, text: &str, md: bool, tier: Tier, viols: &mut Vec<Vio
             push("export-import-changes-filtering".into(), case(json!([format!("ignore lint {k}"), "export/import"])), json!({"before": rest.len(), "after": rest2.len()}), viols);
         }
         // (c) stays ignored under edits elsewhere
-        let e1 = edits_for(&doc, x);
+        let e1 = if light { vec![] } else { edits_for(&doc, x) };
         let mut edit_seqs: Vec<Vec<Edit>> = e1.iter().map(|e| vec![e.clone()]).collect();
         if tier == Tier::Thorough {
             for a in &e1 {
@@ -263,6 +285,31 @@ fn check_doc(cx: &mut Ctx, text: &str, md: bool, tier: Tier, viols: &mut Vec<Vio
             if r.iter().any(|l| l == x2) {
                 let cls = if es.iter().any(|e| e.insert.contains('"')) { "after-edit-with-quotes" } else { "after-edit" };
                 push(format!("ignored-lint-reappears:{cls}"), case(json!([format!("ignore lint {k}"), es.iter().map(|e| e.name).collect::<Vec<_>>(), "re-lint edited text"])), json!({"ignored": lint_json(x), "edited_text": text2, "reappeared": lint_json(x2)}), viols);
+            }
+        }
+    }
+    // two ignore lists merged (what import_ignored_lints does on an instance that already has
+    // entries): in BOTH directions the union must hide both lints
+    for a in 0..lints.len().min(4) {
+        for b in 0..lints.len().min(4) {
+            if a == b {
+                continue;
+            }
+            traces += 1;
+            transitions += 3;
+            let mut own = IgnoredLints::new();
+            own.ignore_lint(&lints[a], &doc);
+            let mut other = IgnoredLints::new();
+            other.ignore_lint(&lints[b], &doc);
+            let Ok(imported) = serde_json::from_str::<IgnoredLints>(&serde_json::to_string(&other).unwrap()) else { continue };
+            own.append(imported);
+            let mut rest = lints.clone();
+            own.remove_ignored(&mut rest, &doc);
+            for j in [a, b] {
+                if rest.iter().any(|l| l == &lints[j]) {
+                    let which = if j == a { "own-entry-lost" } else { "imported-entry-lost" };
+                    push(format!("merged-ignore-lists:{which}"), case(json!([format!("instance 1 ignores lint {a}"), format!("instance 2 ignores lint {b}"), "instance 1 imports the exported list of instance 2"])), json!({"still_reported": lint_json(&lints[j])}), viols);
+                }
             }
         }
     }
@@ -307,8 +354,8 @@ pub fn run(tier: Tier) -> i32 {
         let mut nt = 0u64;
         let mut used = 0u64;
         for i in s..e {
-            let (t, md) = &docs[i as usize];
-            match catch(|| check_doc(&mut cx, t, *md, tier, &mut viols)) {
+            let (t, md, light) = &docs[i as usize];
+            match catch(|| check_doc(&mut cx, t, *md, *light, tier, &mut viols)) {
                 Ok((a, b, c)) => {
                     tr += a;
                     traces += b;
